@@ -303,7 +303,7 @@ func inBubbleT(f func(t *testing.T)) {
 
 func genGcc(r *Rng, tier string, idx int) Case {
 	classes := []string{"wellformed", "lossy", "heavyloss", "reordered", "identical", "hugegaps", "congested",
-		"rfc8888", "mixed", "closed", "minabove100k", "minequalsmax"}
+		"rfc8888", "mixed", "closed", "minabove100k", "minequalsmax", "ratecalc"}
 	cl := classes[idx%len(classes)]
 	type cfgT struct{ ini, mn, mx int }
 	grid := []cfgT{{10_000, 5_000, 50_000_000}, {1_000_000, 1_000_000, 1_000_000}, {2_000_000, 1_000_000, 5_000_000},
@@ -347,6 +347,7 @@ func genGcc(r *Rng, tier string, idx int) Case {
 	case "minabove100k":
 		loss = r.Pick(0, 15, 43, 60)
 	}
+	lastArr, rcMode := 0, 0
 	for i := 0; i < nfb; i++ {
 		if i == closeAt {
 			ops = append(ops, "close")
@@ -373,6 +374,22 @@ func genGcc(r *Rng, tier string, idx int) Case {
 				mode = []string{"wellformed", "reordered", "identical", "congested", "wellformed"}[r.Intn(5)]
 			}
 			switch mode {
+			case "ratecalc":
+				// whole feedbacks (and runs of feedbacks) with identical or strictly decreasing arrival
+				// times: rateCalculator.run divides by dt = 0 / dt < 0
+				if k == 0 {
+					rcMode = r.Intn(4)
+				}
+				switch {
+				case lastArr == 0 || rcMode == 3:
+					arr += r.Range(0, 300)
+				case rcMode == 0:
+					arr = lastArr
+				case rcMode == 1:
+					arr = lastArr - r.Pick(1, 250, 251, 1000)
+				default:
+					arr = lastArr - r.Range(1, 100_000)
+				}
 			case "reordered":
 				arr += r.Range(-4000, 4000)
 				if r.Chance(1, 5) && prevArr > 2000 {
@@ -395,6 +412,7 @@ func genGcc(r *Rng, tier string, idx int) Case {
 				arr = 0
 			}
 			prevArr = arr
+			lastArr = arr
 			if r.Intn(100) < loss && !(k == 0 && loss < 100) {
 				a[k] = "x"
 			} else {
